@@ -45,9 +45,14 @@ def _const_index(e) -> Optional[int]:
 class KeyFlow:
     """component provenance inside one function (`fnode`, CFG `g`)"""
 
-    def __init__(self, g, fnode):
+    def __init__(self, g, fnode, ctx=None, owner=None, depth: int = 0):
+        """ctx / owner (the FuncInfo or normal form `fnode` belongs to) enable following calls of helpers defined in the
+        same module / class: `pk, tok = self._split(key)` is read through the helper's `return` statements"""
         self.g = g
         self.fn = fnode
+        self.ctx = ctx
+        self.owner = owner
+        self.depth = depth
         self.rd = ReachingDefs(g, fnode)
         self._node_of: Dict[int, int] = {}
         from ..astutil import own_exprs
@@ -144,6 +149,11 @@ class KeyFlow:
                 if d.id in seen or d.value is None or d.kind != "assign":
                     continue
                 seen.add(d.id)
+                if len(d.path) <= 1 and (not d.path or d.path[0] is not None):
+                    via = self._through_helper(d.value, d.node, d.path[0] if d.path else None)
+                    if via is not None:
+                        out |= via
+                        continue
                 if not d.path:
                     out |= self.comps(d.value, d.node, seen)
                 elif len(d.path) == 1 and d.path[0] is not None:
@@ -155,6 +165,77 @@ class KeyFlow:
                         out.add((self.ident(v, d.node), d.path[0]))
             return out
         return set()
+
+    # ------------------------------------------------------------------ helpers (one or two levels)
+    def _helper_of(self, call):
+        if self.ctx is None or self.owner is None or self.depth >= 2 or not isinstance(call, ast.Call):
+            return None, False
+        fn = call.func
+        r, bound = None, False
+        ix = self.ctx.index
+        if isinstance(fn, ast.Name):
+            r = ix.resolve(self.owner.module, fn.id)
+        elif isinstance(fn, ast.Attribute) and isinstance(fn.value, ast.Name) and fn.value.id in ("self", "cls") \
+                and getattr(self.owner, "cls", None) is not None:
+            r = ix.resolve_method(self.owner.cls, fn.attr)
+            bound = True
+        if r is None or getattr(r, "module", None) is not self.owner.module \
+                or not isinstance(getattr(r, "node", None), (ast.FunctionDef, ast.AsyncFunctionDef)):
+            return None, False
+        if bound and any((dotted(d) or "").rsplit(".", 1)[-1] == "staticmethod" for d in r.node.decorator_list):
+            bound = False
+        return r, bound
+
+    def _through_helper(self, value, at: int, index: Optional[int]):
+        """components of what a same-module helper returns (element `index` of the returned tuple when the result is
+        unpacked), expressed in the caller's identities; None when `value` is not such a call"""
+        h, bound = self._helper_of(value)
+        if h is None:
+            return None
+        from ._helpers_rob_i import bind_call
+        binding = bind_call(value, h.node, bound_method=bound)
+        if binding is None:
+            return None
+        sub = KeyFlow(self.ctx.cfg(h), h.node, self.ctx, h, self.depth + 1)
+        out: Set[Tuple[FrozenSet[tuple], int]] = set()
+        stack = list(h.node.body)
+        rets = []
+        while stack:
+            n = stack.pop()
+            if isinstance(n, (ast.FunctionDef, ast.AsyncFunctionDef, ast.ClassDef, ast.Lambda)):
+                continue
+            if isinstance(n, ast.Return) and n.value is not None:
+                rets.append(n)
+            stack.extend(ast.iter_child_nodes(n))
+        for r in rets:
+            rv = r.value
+            rat = sub.node_of(rv)
+            if rat is None:
+                continue
+            if index is None:
+                got = sub.comps(rv, rat)
+            elif isinstance(rv, (ast.Tuple, ast.List)):
+                if index >= len(rv.elts) or any(isinstance(x, ast.Starred) for x in rv.elts):
+                    continue
+                got = sub.comps(rv.elts[index], rat)
+            else:
+                got = {(sub.ident(rv, rat), index)}
+            for K, i in got:
+                out.add((self._subst(K, binding, at), i))
+        return out
+
+    def _subst(self, K: FrozenSet[tuple], binding, at: int) -> FrozenSet[tuple]:
+        out: Set[tuple] = set()
+        for x in K:
+            if x[0] == "param" and x[1] in binding:
+                out |= self.ident(binding[x[1]], at)
+            elif x[0] == "state":
+                out.add(("state", self._subst(x[1], binding, at)))
+            elif x[0] == "expr":
+                out.add(("expr", x[1], tuple((n, self._subst(o, binding, at)) for n, o in x[2])))
+            else:
+                out.add(x)
+        return frozenset(out)
 
     def is_none_only(self, e, at: Optional[int] = None) -> bool:
         """`e` can only be None at its program point (the 'no key' arm of `ident = token = None`)"""
@@ -178,3 +259,239 @@ def describe_key(k: FrozenSet[tuple]) -> str:
         else:
             parts.append("<local>")
     return " | ".join(parts)
+
+
+# ====================================================================================== ClassModel (C54-R5)
+def _native(fn):
+    fn._model_native = True
+    return fn
+
+
+_CONTAINER_BASES = {"Dict": dict, "dict": dict, "Set": set, "set": set, "List": list, "list": list}
+_IGNORED_BASES = {"Generic", "object", "Protocol"}
+# decorators that do not change what a method computes in pure-python mode
+_TRANSPARENT_DECORATOR_HEADS = ("cython.",)
+
+
+class ClassModel(PyModel):
+    """PyModel + library classes as real (generated) Python types whose methods are interpreted.
+
+    A class of the analysed module becomes `type(name, bases, ns)`: a base that is a builtin container (`Dict[..]`,
+    `Set[..]`, `set` ...) is that builtin, every `def` of the class body is a Python function that re-enters the
+    interpreter on the method's AST.  All protocol dispatch (`len`, `in`, iteration, truth value, `==`, `|=`,
+    `isinstance`, `self.__class__(..)`, `cls.__new__(cls)`, `set.add(self, x)`, `dict.__or__(self, y)`) is therefore
+    Python's own -- the interpreter never guesses how a dunder is found."""
+
+    def __init__(self, ctx, relpath: str, budget: int = 400000):
+        super().__init__(self._module_env, budget)
+        self.ctx = ctx
+        self.module = ctx.index.module(relpath)
+        self.names: Dict[str, tuple] = {}
+        self.values: Dict[str, object] = {}
+        self.gen_types: Set[type] = set()
+        self.cy = types.SimpleNamespace(compiled=False, cast=_native(lambda t, v, **kw: v))
+        self._collect(self.module.tree.body)
+
+    # -------------------------------------------------------------------------------- module level names
+    def _collect(self, body):
+        for st in body:
+            if isinstance(st, (ast.FunctionDef, ast.AsyncFunctionDef)):
+                self.names[st.name] = ("func", st)
+            elif isinstance(st, ast.ClassDef):
+                self.names[st.name] = ("class", st)
+            elif isinstance(st, ast.Assign):
+                for t in st.targets:
+                    if isinstance(t, ast.Name):
+                        self.names[t.id] = ("expr", st.value)
+            elif isinstance(st, ast.AnnAssign) and st.value is not None and isinstance(st.target, ast.Name):
+                self.names[st.target.id] = ("expr", st.value)
+            elif isinstance(st, (ast.Import, ast.ImportFrom)):
+                for al in st.names:
+                    nm = (al.asname or al.name).split(".")[0]
+                    if nm == "cython":
+                        self.names[nm] = ("value", self.cy)
+                    elif al.name == "cast":
+                        self.names[nm] = ("value", self.cy.cast)
+                    elif isinstance(st, ast.Import) and al.name in ("operator", "collections", "itertools"):
+                        self.names[nm] = ("value", __import__(al.name))
+            elif isinstance(st, ast.Try):
+                self._collect(st.body)
+                if not any(n in self.names for n in ("cython",)):
+                    for h in st.handlers:
+                        self._collect(h.body)
+            elif isinstance(st, ast.If):
+                # module level switches (`if cython.compiled:`, `if TYPE_CHECKING:`) are decided in pure-python mode
+                try:
+                    v = bool(self.ev(st.test, [{"TYPE_CHECKING": False, "typing": types.SimpleNamespace(TYPE_CHECKING=False)}]))
+                except Exception:
+                    continue        # names bound in there stay unknown (-> Unsupported when they are needed)
+                self._collect(st.body if v else st.orelse)
+
+    def _module_env(self, name: str):
+        if name in self.values:
+            return self.values[name]
+        kind, node = self.names[name]       # KeyError -> PyModel.lookup falls back to the safe builtins
+        if kind == "value":
+            v = node
+        elif kind == "func":
+            self._check_decorators(node)
+            v = FuncVal(node, [])
+        elif kind == "class":
+            v = self._build_class(node)
+        else:
+            v = self.ev(node, [])
+        self.values[name] = v
+        return v
+
+    @staticmethod
+    def _decorator_kind(d) -> Optional[str]:
+        txt = dotted(d.func if isinstance(d, ast.Call) else d) or ""
+        if txt in ("classmethod", "staticmethod", "property"):
+            return txt
+        if txt.startswith(_TRANSPARENT_DECORATOR_HEADS) or txt.rsplit(".", 1)[-1] in ("overload",):
+            return "transparent"
+        return None
+
+    def _check_decorators(self, fnode):
+        for d in fnode.decorator_list:
+            if self._decorator_kind(d) is None:
+                raise Unsupported(f"decorator `{unparse(d)[:50]}` of {fnode.name}")
+
+    def _wrap(self, fnode):
+        interp = self
+
+        def method(*args, **kw):
+            return interp.call(FuncVal(fnode, []), list(args), kw)
+        method._model_wrapper = True
+        method.__name__ = fnode.name
+        return method
+
+    def _build_class(self, node: ast.ClassDef) -> type:
+        bases: List[type] = []
+        for b in node.bases:
+            head = dotted(b.value if isinstance(b, ast.Subscript) else b) or ""
+            last = head.rsplit(".", 1)[-1]
+            if last in self.names and self.names[last][0] == "class":
+                bases.append(self._module_env(last))
+            elif last in _CONTAINER_BASES:
+                bases.append(_CONTAINER_BASES[last])
+            elif last in _IGNORED_BASES:
+                continue
+            else:
+                raise Unsupported(f"base class `{unparse(b)[:40]}` of {node.name}")
+        ns: Dict[str, object] = {"__module__": "sqlastatic.model", "__qualname__": node.name}
+        for st in node.body:
+            if isinstance(st, (ast.FunctionDef, ast.AsyncFunctionDef)):
+                kinds = [self._decorator_kind(d) for d in st.decorator_list]
+                if any(k is None for k in kinds):
+                    bad = st
+
+                    def unsupported(*a, _bad=bad, **k):
+                        raise Unsupported(f"decorated method {_bad.name}")
+                    unsupported._model_wrapper = True
+                    ns[st.name] = unsupported
+                    continue
+                if any(isinstance(d, (ast.Name, ast.Attribute)) and (dotted(d) or "").rsplit(".", 1)[-1] == "overload" for d in st.decorator_list):
+                    continue
+                w = self._wrap(st)
+                if "classmethod" in kinds:
+                    w = classmethod(w)
+                elif "staticmethod" in kinds:
+                    w = staticmethod(w)
+                elif "property" in kinds:
+                    w = property(w)
+                ns[st.name] = w
+            elif isinstance(st, ast.Assign) and len(st.targets) == 1 and isinstance(st.targets[0], ast.Name):
+                t = st.targets[0].id
+                if t == "__slots__":
+                    continue
+                if isinstance(st.value, ast.Name) and st.value.id in ns:
+                    ns[t] = ns[st.value.id]
+                elif isinstance(st.value, ast.Constant):
+                    ns[t] = st.value.value
+                else:
+                    raise Unsupported(f"class attribute `{unparse(st)[:50]}` of {node.name}")
+            elif isinstance(st, (ast.AnnAssign, ast.Pass)) or (isinstance(st, ast.Expr) and isinstance(st.value, ast.Constant)):
+                if isinstance(st, ast.AnnAssign) and st.value is not None:
+                    raise Unsupported(f"class attribute `{unparse(st)[:50]}` of {node.name}")
+                continue
+            else:
+                raise Unsupported(f"class body statement `{unparse(st).splitlines()[0][:50]}` of {node.name}")
+        cls = type(node.name, tuple(bases) or (object,), ns)
+        self.gen_types.add(cls)
+        return cls
+
+    def cls(self, name: str) -> type:
+        return self.lookup(name, [])
+
+    # -------------------------------------------------------------------------------- evaluation
+    def _allowed(self, v) -> bool:
+        if isinstance(v, type):
+            return v in self.gen_types
+        return type(v) in self.gen_types or v is self.cy or (isinstance(v, types.ModuleType) and v.__name__ in ("operator", "collections", "itertools"))
+
+    def ev(self, e, envs):
+        if isinstance(e, ast.Attribute):
+            self._tick()
+            v = self.ev(e.value, envs)
+            if self._allowed(v):
+                return getattr(v, e.attr)
+            if isinstance(v, (types.MethodType,)) and e.attr in ("__func__", "__self__"):
+                return getattr(v, e.attr)
+            from ._helpers_str2_q import _SAFE_TYPES
+            if isinstance(v, _SAFE_TYPES) or (isinstance(v, type) and v in _SAFE_TYPES):
+                return getattr(v, e.attr)
+            raise Unsupported(f"attribute `{unparse(e)[:60]}` of {type(v).__name__}")
+        return super().ev(e, envs)
+
+    def call(self, f, args, kw):
+        if isinstance(f, type) and f in self.gen_types:
+            self._tick()
+            return f(*args, **kw)
+        if getattr(f, "_model_wrapper", False) or getattr(f, "_model_native", False):
+            self._tick()
+            return f(*args, **kw)
+        if f is _b.super:
+            raise Unsupported("super()")
+        return super().call(f, args, kw)
+
+    def _ev_call(self, e, envs):
+        if isinstance(e.func, ast.Attribute):
+            recv = self.ev(e.func.value, envs)
+            from ._helpers_str2_q import _SAFE_TYPES
+            if self._allowed(recv) or isinstance(recv, _SAFE_TYPES) or (isinstance(recv, type) and recv in _SAFE_TYPES):
+                f = getattr(recv, e.func.attr)
+            else:
+                raise Unsupported(f"method call `{unparse(e)[:60]}` on {type(recv).__name__}")
+        else:
+            f = self.ev(e.func, envs)
+        args = self._elts(e.args, envs)
+        kw = {}
+        for k in e.keywords:
+            if k.arg is None:
+                kw.update(self.ev(k.value, envs))
+            else:
+                kw[k.arg] = self.ev(k.value, envs)
+        return self.call(f, args, kw)
+
+    def _bind(self, target, value, envs):
+        if isinstance(target, ast.Attribute):
+            recv = self.ev(target.value, envs)
+            if type(recv) in self.gen_types:
+                setattr(recv, target.attr, value)
+                return
+            raise Unsupported(f"attribute store `{unparse(target)[:50]}` on {type(recv).__name__}")
+        super()._bind(target, value, envs)
+
+    # -------------------------------------------------------------------------------- driving a case
+    def invoke(self, fn, *args, **kw):
+        """run `fn(*args)` (a generated class / bound method) with a fresh step budget -> ('ok', value) | ('raise', exc)"""
+        self.budget = 400000
+        try:
+            return "ok", fn(*args, **kw)
+        except Unsupported:
+            raise
+        except RecursionError:
+            raise Unsupported("recursion limit")
+        except Exception as exc:        # the interpreted code raised: that is its behaviour on this input
+            return "raise", exc
